@@ -34,18 +34,23 @@ var faults = []struct {
 	text    string
 	parse   bool
 	comment string
+	offset  int // line of the faulty construct relative to the first line of text
 }{
-	{"throw new Exception(\"x\");", false, "uncaught throw"},
-	{"$u = 1 % 0;", false, "modulo by zero"},
-	{"$u = nofn(1);", false, "undefined function"},
-	{"$u = new NoClass();", false, "undefined class"},
-	{"$u = $q->m();", false, "method call on null"},
-	{"$u = );", true, "stray closing parenthesis"},
-	{"function f( { }", true, "parameter list"},
-	{"foreach ($k) { }", true, "foreach without as"},
-	{"else { $u = 1; }", true, "else without if"},
-	{"$u = (1 + ;", true, "unterminated parenthesis"},
-	{"if ($k { $u = 1; }", true, "unterminated condition"},
+	{"throw new Exception(\"x\");", false, "uncaught throw", 0},
+	{"$u = 1 % 0;", false, "modulo by zero", 0},
+	{"$u = nofn(1);", false, "undefined function", 0},
+	{"$u = new NoClass();", false, "undefined class", 0},
+	{"$u = $q->m();", false, "method call on null", 0},
+	{"$s = \"l1\nl2\nl3 {$q->m()} x\";", false, "method call on null inside an interpolation on the third line of a string", 2},
+	{"$s = <<<EOT\nl1\nl2 {$q->m()} x\nEOT;", false, "method call on null inside an interpolation on the second body line of a heredoc", 2},
+	{"$s = \"l1\nl2 @{ nofn(1) } x\";", false, "undefined function inside @{ } on the second line of a string", 1},
+	{"$u = [1,\n  2,\n  nofn(3)];", false, "undefined function on the third line of a list literal", 2},
+	{"$u = );", true, "stray closing parenthesis", 0},
+	{"function f( { }", true, "parameter list", 0},
+	{"foreach ($k) { }", true, "foreach without as", 0},
+	{"else { $u = 1; }", true, "else without if", 0},
+	{"$u = (1 + ;", true, "unterminated parenthesis", 0},
+	{"if ($k { $u = 1; }", true, "unterminated condition", 0},
 }
 
 func lineOfControl(ctl data.Control) (int, bool) {
@@ -97,7 +102,7 @@ func H_error_line() {
 		l, ok := lineOfControl(ctl)
 		symx.Assert(ok, "parse diagnostic carries a location")
 		if ok {
-			symx.Assert(l == want, "parse error is reported on the line of the faulty construct: "+f.comment)
+			symx.Assert(l == want+f.offset, "parse error is reported on the line of the faulty construct: "+f.comment)
 		}
 		symx.Reach("end")
 		return
@@ -118,7 +123,7 @@ func H_error_line() {
 	l, ok := lineOfControl(rctl)
 	symx.Assert(ok, "runtime diagnostic carries a location")
 	if ok {
-		symx.Assert(l == want, "uncaught error is reported on the line of the faulty construct: "+f.comment)
+		symx.Assert(l == want+f.offset, "uncaught error is reported on the line of the faulty construct: "+f.comment)
 	}
 	symx.Reach("end")
 }
